@@ -16,6 +16,9 @@ RULE = (
     'empty stream, particles before any header), cpd in {1,2,3,875,1700,1701,4046,4047}, velocity scales, cell indices incl. 0 and cpd-1; '
     'a case = one stream decoded by the real unpack_pack9 in one (dtype, output mode); non-trivial = distinct (stream family, cpd, dtype, output mode)'
 )
+RULE += (
+    ' Added after seeded round 9: earlier allocate-mode results re-compared after later calls; 8 Python threads decoding 8 different streams at the same time.'
+)
 ASSUMPTIONS = [
     'float64 outputs compared at 1e-12*BoxSize; float32 outputs at 8 ulp(BoxSize) + 1e-6 relative (rounding of the float32 pipeline)',
     'particles that precede the first header decode to NaN by design; only their count is checked',
